@@ -318,6 +318,9 @@ func (nfs *Nfs) NFSPROC3_WRITE(args nfstypes.WRITE3args) nfstypes.WRITE3res {
 		errRet(op, &reply.Status, nfstypes.NFS3ERR_NOSPC)
 		return reply
 	}
+	// build the reply attributes now: committing releases the inode lock, and
+	// reading the inode afterwards races with concurrent requests
+	fattr := ip.MkFattr()
 	// if not supporting unstable writes, upgrade stability
 	if !nfs.Unstable {
 		args.Stable = nfstypes.FILE_SYNC
@@ -354,7 +357,7 @@ func (nfs *Nfs) NFSPROC3_WRITE(args nfstypes.WRITE3args) nfstypes.WRITE3res {
 		reply.Resok.Committed = args.Stable
 		reply.Resok.Verf = nfs.verf
 		reply.Resok.File_wcc.After.Attributes_follow = true
-		reply.Resok.File_wcc.After.Attributes = ip.MkFattr()
+		reply.Resok.File_wcc.After.Attributes = fattr
 	} else {
 		util.DPrintf(1, "Write transaction failed")
 		reply.Status = nfstypes.NFS3ERR_SERVERFAULT
